@@ -30,6 +30,11 @@ CHECKS = {
   text="Kernel-checked: C03_hidden_keys_silent / C03_kv_hidden_silent / sep_dropHidden (dropping every __name__ key other than __type__/__comments__ from any object changes nothing that is printed, under every option record); C03_string_quoted, C03_int_bare, C03_float_bare, C03_bool_bare, C03_binding_bare, C03_expression_bare, C03_listexpr_bare, C03_regex_bare (each universal in the value, under an explicit decidable condition okFor on the keyword's schema abstraction) and C03_table / C03_cell_ok (`decide +kernel`: every (type, keyword, admissible shape) of the regenerated Gen.props × Gen.shapes satisfies okFor; enumerated words evaluated exhaustively for both quotes); C03_empty_dict_refused. Edit histories need no separate theorem: the statements hold for every dictionary. Tied to the code by format_value (every cell × shape × both quotes), quoter (exhaustive short strings) and pp correspondences; the oracle compares real dumps with an independently written expectation, for generated documents and for dictionaries edited through random dict-API histories (incl. reads of missing keys, which must be refused).",
   note="Trusted: Lean kernel; hand models of pprint.py/quoter.py (correspondence each run); Gen tables regenerated; lexical-class lemmas use the model's quoter predicates as hypotheses; COMPOP and GEOMTRANSFORM \"end\" quoted by design; strings that look like expressions/bindings/regexes at expression-capable keywords are the documented exclusion; list-valued keywords holding bindings are not in the generated shapes.",
   ref="§6 C03"),
+ "C15": dict(
+  technique="Lean 4 proof that the load_includes model computes exactly depth-bounded textual substitution (soundness + completeness by induction on the nesting budget and the line list; structural recursion on the budget is the termination argument) + correspondence on include trees materialised on disk",
+  text="Kernel-checked over Model/Includes.lean for every file system and path-resolution function: C15_sound and C15_complete (expandLines b ls = ok out ⇔ ExpandsD b ls out: the result is the textual substitution of INCLUDE lines using at most b nesting levels), C15_five_levels (the public entry has budget 5), C15_limit (any INCLUDE at the limit raises the MaxNested ValueError), C15_missing (I/O error), C15_cycle (a self-including file fails for every budget), C15_no_include_identity and join_split (text without INCLUDE lines is returned byte-identical). Termination is by structural recursion on the budget. The same root-relative `resolve` is used at every depth by construction. Tied to Parser.load_includes by exact expanded-text correspondence on random include trees written to a temp dir; the oracle loads the cut documents through open/load/loads from two working directories and compares with loads of the single original text, plus depth ≥ 6, cyclic, missing-file and expand_includes=False variants.",
+  note="Trusted: Lean kernel; hand model of load_includes/_get_include_filename (correspondence each run); the OS file system, os.path and text-mode newline translation are parameters supplied by the harness; Lark parsing of the expanded text is exercised by the oracle. Include paths containing blanks are not supported by the code (split on whitespace) and are not generated; the 'quotes/trailing comment do not matter' clause is covered by correspondence and oracle, not yet by a theorem.",
+  ref="§6 C15"),
 }
 NOT_APPLICABLE = {}
 ALL = [f"C{i:02d}" for i in range(1, 21)]
